@@ -1,6 +1,6 @@
 // Command accum15 is the engine-B explorer for property C15: breadth-first search over all
 // reachable states (bounded depth) of a real osmoutils/accum.AccumulatorObject on a real in-memory
-// KV store, under two handle disciplines, against an exact big.Rat reference model.
+// KV store, under three handle disciplines, against an exact big.Rat reference model.
 package main
 
 import (
@@ -425,7 +425,7 @@ func main() {
 	}
 	seen := core.NewSeen()
 	var es []*explorer
-	for _, disc := range []string{"fresh", "long"} {
+	for _, disc := range []string{"fresh", "long", "stale"} {
 		e := &explorer{f: f, r: r, disc: disc, alpha: alpha, seen: seen, shr: map[string]int{}}
 		e.start()
 		es = append(es, e)
@@ -447,7 +447,7 @@ levels:
 	}
 	r.Extra["alphabet"] = strings.Join(names, "; ")
 	r.Extra["illegal_calls_probed_in_every_state"] = symsString(explicitIllegal()) + "; plus every alphabet call that is not legal in the state"
-	r.Extra["disciplines"] = "fresh GetAccumulator before every call; one long-lived handle for the whole history"
+	r.Extra["disciplines"] = "fresh GetAccumulator before every call; one long-lived handle for the whole history; stale: every position call through a copy of the handle fetched after the last growth/deletion (cached total shares behind the store), growth and deletion through a fresh handle"
 	r.Extra["depth_bound"] = depth
 	probeObservations(r)
 	seen.Dump(f.HashOut)
